@@ -341,6 +341,7 @@ fn main() {
 
     // corpus first: each file is {"models":[[TableDef..]..]} — a list of model sets (an evolution)
     let mut evo_id = 0usize;
+    let mut histories: Vec<Vec<MigrationPlan>> = vec![];
     if !corpus.is_empty() {
         if let Ok(rd) = std::fs::read_dir(&corpus) {
             let mut files: Vec<_> = rd.filter_map(|e| e.ok()).map(|e| e.path()).filter(|p| p.extension().map(|x| x == "json").unwrap_or(false)).collect();
@@ -371,8 +372,12 @@ fn main() {
                 _ => {}
             }
         }
+        if history.len() >= 2 && histories.len() < 60 {
+            histories.push(history.clone());
+        }
         evo_id += 1;
     }
+    loader_cases(&outdir, &mut rng, &histories);
     for _ in 0..malformed {
         let m = gener::gen_malformed(&mut rng);
         emit_case(&mut out, &mut rng, &m, &[], "malformed", evo_id, 0);
@@ -611,4 +616,74 @@ fn names_main(args: &[String]) {
     }
     vcommon::write_shards(&outdir, "pairs_names", header, "(named_object * named_object)", &pairs, 100000, tail2).unwrap();
     println!("name cases={} model sets={} colliding pairs={}", n, sets, pairs.len());
+}
+
+
+// ------------------------------------------------------------------------------------------ C08: the real loader
+/// Store each history in two directories whose enumeration orders differ (file names in reverse
+/// lexicographic order of the versions, created in reverse order), load them with the real
+/// `vespertide_loader::load_migrations`, and print (plans in read_dir order, versions the loader returned).
+fn loader_cases(outdir: &std::path::Path, rng: &mut Rng, histories: &[Vec<MigrationPlan>]) {
+    use vespertide_config::VespertideConfig;
+    let base = outdir.join("loaddirs");
+    let _ = std::fs::remove_dir_all(&base);
+    let mut cases = vec![];
+    let mut side = String::new();
+    for (hi, h) in histories.iter().enumerate() {
+        // drop plans the loader itself would reject (validate_migration_plan), they are C12's subject
+        let h: Vec<&MigrationPlan> = h.iter().filter(|p| validate_migration_plan(p).is_ok()).collect();
+        if h.len() < 2 {
+            continue;
+        }
+        let mut results: Vec<Vec<u32>> = vec![];
+        for variant in 0..2 {
+            let dir = base.join(format!("h{}_{}", hi, variant));
+            std::fs::create_dir_all(&dir).unwrap();
+            let mut order: Vec<usize> = (0..h.len()).collect();
+            if variant == 1 {
+                order.reverse();
+            } else {
+                rng.shuffle(&mut order);
+            }
+            for &i in &order {
+                let name = if variant == 1 {
+                    format!("{:04}_m.json", 9999 - h[i].version)
+                } else {
+                    format!("{}_{:04}.json", ["zz", "aa", "mm"][i % 3], h[i].version)
+                };
+                std::fs::write(dir.join(name), serde_json::to_string(h[i]).unwrap()).unwrap();
+            }
+            let mut cfg = VespertideConfig::default();
+            cfg.migrations_dir = dir.clone();
+            let in_dir_order: Vec<MigrationPlan> = std::fs::read_dir(&dir)
+                .unwrap()
+                .filter_map(|e| e.ok())
+                .filter_map(|e| std::fs::read_to_string(e.path()).ok())
+                .filter_map(|t| serde_json::from_str::<MigrationPlan>(&t).ok())
+                .collect();
+            match vespertide_loader::load_migrations(&cfg) {
+                Ok(loaded) => {
+                    let versions: Vec<u32> = loaded.iter().map(|p| p.version).collect();
+                    let dir_versions: Vec<u32> = in_dir_order.iter().map(|p| p.version).collect();
+                    cases.push(format!("({}, {})", dir_versions.gs(), versions.gs()));
+                    results.push(versions);
+                }
+                Err(e) => {
+                    let _ = writeln!(side, "{}", json!({"history": hi, "variant": variant, "error": e.to_string()}));
+                }
+            }
+        }
+        let ascending = results.iter().all(|v| v.windows(2).all(|w| w[0] < w[1]));
+        let same = results.len() == 2 && results[0] == results[1];
+        let _ = writeln!(side, "{}", json!({"history": hi, "n": h.len(), "ok": ascending && same, "ascending": ascending, "same": same, "loaded": results,
+            "plans": h.iter().map(|p| plan_json(p)).collect::<Vec<_>>()}));
+    }
+    let _ = std::fs::remove_dir_all(&base);
+    std::fs::write(outdir.join("load.jsonl"), side).unwrap();
+    if cases.is_empty() {
+        cases.push("([], [])".to_string());
+    }
+    let header = "From VV.M1 Require Import Validate.\n";
+    let tail = "Definition vsort (l : list N) : list N := map p_version (sort_plans (map (fun v => mkPlan \"\" None None v []) l)).\nDefinition bad := flat_map (fun c : list N * list N => if dec_b (list_eq_dec N.eq_dec) (vsort (fst c)) (snd c) then [] else [1%nat]) cases.\nEval vm_compute in List.length bad.\n";
+    vcommon::write_shards(outdir, "cases_load", header, "(list N * list N)", &cases, 100000, tail).unwrap();
 }
